@@ -365,6 +365,14 @@ func init() {
 			}
 			break
 		}
+		// after all the rejected ciphertexts above: the caller's key object is untouched and still decrypts the genuine
+		// blob (an error path must not modify its arguments)
+		if !bytes.Equal([]byte(privArg), sk) {
+			fails = append(fails, fail("C16", "roundtrip:key-modified", "DecryptInnerData modified the caller's x25519.PrivateKey while rejecting a ciphertext"))
+		}
+		if got, err := c16Decrypt(blob, cookie, privArg); err != nil || !bytes.Equal(got, want) {
+			fails = append(fails, fail("C16", "roundtrip:after-rejections", "decrypt(encrypt(x)) with the matching key object fails after that object was used on rejected ciphertexts: %v", err))
+		}
 		// resized blobs are outside the sentence ("modified byte"): recorded, not judged
 		if len(blob) > 61 {
 			if _, err := c16Decrypt(blob[:len(blob)-1], cookie, privArg); err == nil {
